@@ -2,6 +2,7 @@ package transaction
 
 import (
 	"fmt"
+	"strings"
 	"time"
 
 	"github.com/sboehler/knut/lib/common/compare"
@@ -52,7 +53,7 @@ func (tb Builder) Build() *Transaction {
 	return &Transaction{
 		Src:         tb.Src,
 		Date:        tb.Date,
-		Description: tb.Description,
+		Description: strings.ReplaceAll(tb.Description, "\"", "'"), // the journal syntax cannot escape a double quote
 		Postings:    tb.Postings,
 		Targets:     tb.Targets,
 	}
